@@ -44,6 +44,7 @@ const (
 	opStatus
 	opChild
 	opIsRec
+	opEndPanic // defer span.End(); panic(v): End runs its recover() path
 )
 
 type op struct {
@@ -53,7 +54,7 @@ type op struct {
 
 func (o op) coq() string {
 	switch o.Kind {
-	case opEnd:
+	case opEnd, opEndPanic:
 		return "OEnd"
 	case opAttr:
 		return "(MA " + strconv.Itoa(o.N) + ")"
@@ -72,7 +73,7 @@ func (o op) coq() string {
 }
 
 func (o op) String() string {
-	names := []string{"End", "SetAttributes", "AddEvent", "RecordError", "AddLink", "SetName", "SetStatus", "ChildStart", "IsRecording"}
+	names := []string{"End", "SetAttributes", "AddEvent", "RecordError", "AddLink", "SetName", "SetStatus", "ChildStart", "IsRecording", "End(while panicking)"}
 	if o.Kind == opAttr {
 		return fmt.Sprintf("SetAttributes(%d keys)", o.N)
 	}
@@ -90,6 +91,7 @@ type snapObs struct {
 	ET       time.Time
 	Children int
 	Bad      string // anything that could not be attributed to a call
+	Drop     [3]int // DroppedAttributes, DroppedEvents, DroppedLinks
 }
 
 type rec struct {
@@ -152,7 +154,7 @@ func parseID(s, prefix string) (int, bool) {
 
 // observe reads everything the property talks about from a ReadOnlySpan.
 func observe(s sdktrace.ReadOnlySpan) *snapObs {
-	ob := &snapObs{ET: s.EndTime(), Children: s.ChildSpanCount()}
+	ob := &snapObs{ET: s.EndTime(), Children: s.ChildSpanCount(), Drop: [3]int{s.DroppedAttributes(), s.DroppedEvents(), s.DroppedLinks()}}
 	var attrs [][2]int
 	for _, kv := range s.Attributes() {
 		k := string(kv.Key) // "a<m>_<k>"
@@ -187,6 +189,10 @@ func observe(s sdktrace.ReadOnlySpan) *snapObs {
 				if kv.Key == "exception.message" {
 					if m, ok := parseID(kv.Value.AsString(), "x"); ok {
 						ob.Parts = append(ob.Parts, [2]int{m, 0})
+						found = true
+					} else if m, ok := parseID(kv.Value.AsString(), "p"); ok {
+						// recorded by End itself while panicking: the pseudo call panicBase+m
+						ob.Parts = append(ob.Parts, [2]int{panicBase + m, 0})
 						found = true
 					}
 				}
@@ -248,29 +254,66 @@ func doOp(tr trace.Tracer, sp trace.Span, id int, o op) bool {
 		ch.End()
 	case opIsRec:
 		return sp.IsRecording()
+	case opEndPanic:
+		endPanicking(sp, id)
 	}
 	return false
 }
 
-type env struct {
-	tp  *sdktrace.TracerProvider
-	tr  trace.Tracer
-	reg *registry
-	P   int
+const panicBase = 1000
+
+// slowValue is the panic value: formatting it (which End does under the span lock, to record the
+// exception event) yields and sleeps, so that the other callers pile up behind it.
+type slowValue struct{ id int }
+
+func (v slowValue) String() string {
+	runtime.Gosched()
+	time.Sleep(20 * time.Microsecond)
+	return "p" + strconv.Itoa(v.id)
 }
 
-func newEnv(P int) *env {
+// endPanicking runs `defer span.End(); panic(v)` and survives it.
+func endPanicking(sp trace.Span, id int) {
+	defer func() { _ = recover() }()
+	func() {
+		defer sp.End()
+		panic(slowValue{id})
+	}()
+}
+
+type env struct {
+	tp   *sdktrace.TracerProvider
+	tr   trace.Tracer
+	reg  *registry
+	P    int
+	lims [3]int // attribute / event / link count limits (-1 unlimited)
+}
+
+var unlimited = [3]int{-1, -1, -1}
+
+func newEnv(P int) *env { return newEnvLim(P, unlimited) }
+
+// genLimits: half of the runs unlimited, otherwise each limit from {0, 1, 2, 5, 128, -1}.
+func genLimits(r *vgen.Rand) [3]int {
+	if r.Bool() {
+		return unlimited
+	}
+	pick := []int{0, 1, 2, 5, 128, -1}
+	return [3]int{vgen.Pick(r, pick), vgen.Pick(r, pick), vgen.Pick(r, pick)}
+}
+
+func newEnvLim(P int, lims [3]int) *env {
 	reg := &registry{spans: map[trace.SpanID]*spanTrack{}}
 	opts := []sdktrace.TracerProviderOption{
 		sdktrace.WithSampler(sdktrace.AlwaysSample()),
-		sdktrace.WithRawSpanLimits(sdktrace.SpanLimits{AttributeValueLengthLimit: -1, AttributeCountLimit: -1, EventCountLimit: -1,
-			LinkCountLimit: -1, AttributePerEventCountLimit: -1, AttributePerLinkCountLimit: -1}),
+		sdktrace.WithRawSpanLimits(sdktrace.SpanLimits{AttributeValueLengthLimit: -1, AttributeCountLimit: lims[0], EventCountLimit: lims[1],
+			LinkCountLimit: lims[2], AttributePerEventCountLimit: -1, AttributePerLinkCountLimit: -1}),
 	}
 	for i := 0; i < P; i++ {
 		opts = append(opts, sdktrace.WithSpanProcessor(&recProc{idx: i, reg: reg}))
 	}
 	tp := sdktrace.NewTracerProvider(opts...)
-	return &env{tp: tp, tr: tp.Tracer("c10"), reg: reg, P: P}
+	return &env{tp: tp, tr: tp.Tracer("c10"), reg: reg, P: P, lims: lims}
 }
 
 // startSpan starts a tracked root span.
@@ -291,7 +334,9 @@ func (e *env) startSpan() (trace.Span, *spanTrack) {
 type snapTable struct {
 	keys  map[string]int
 	terms []string
+	drops []string
 	ets   map[time.Time]int
+	anyDrop bool
 }
 
 func newSnapTable() *snapTable { return &snapTable{keys: map[string]int{}, ets: map[time.Time]int{}} }
@@ -312,12 +357,50 @@ func (t *snapTable) add(o *snapObs) int {
 		ps = append(ps, fmt.Sprintf("(%d,%d)", p[0], p[1]))
 	}
 	term := fmt.Sprintf("SN [%s] %d %d %d %d", strings.Join(ps, ";"), o.Name, o.Status, et, o.Children)
-	if i, ok := t.keys[term]; ok {
+	drop := fmt.Sprintf("DR %d %d %d", o.Drop[0], o.Drop[1], o.Drop[2])
+	if o.Drop != [3]int{} {
+		t.anyDrop = true
+	}
+	key := term + "|" + drop
+	if i, ok := t.keys[key]; ok {
 		return i
 	}
-	t.keys[term] = len(t.terms)
+	t.keys[key] = len(t.terms)
 	t.terms = append(t.terms, term)
+	t.drops = append(t.drops, drop)
 	return len(t.terms) - 1
+}
+
+func (t *snapTable) dropsCoq() string { return "[" + strings.Join(t.drops, "; ") + "]" }
+
+func limCoq(l [3]int) string { return fmt.Sprintf("(LM %d %d %d)", l[0]+1, l[1]+1, l[2]+1) }
+
+// histTerm renders one span's case: CHist for unlimited spans (nothing may be dropped), CLim otherwise.
+func histTerm(P int, tracing bool, lims [3]int, tbl *snapTable, hist, rereads []string) (term string, bad string) {
+	if lims == unlimited {
+		if tbl.anyDrop {
+			bad = "dropped count non-zero on a span without limits;"
+		}
+		return fmt.Sprintf("CHist %d %v %s [%s] [%s]", P, tracing, tbl.coq(), strings.Join(hist, "; "), strings.Join(rereads, "; ")), bad
+	}
+	return fmt.Sprintf("CLim %d %v %s %s %s [%s] [%s]", P, tracing, limCoq(lims), tbl.coq(), tbl.dropsCoq(), strings.Join(hist, "; "), strings.Join(rereads, "; ")), ""
+}
+
+// issue performs one call with its history records. End-while-panicking is recorded as the End call
+// wrapped in a pseudo AddEvent call (id panicBase+id) standing for the exception event End records.
+func issue(tr trace.Tracer, sp trace.Span, id int, o op) []rec {
+	if o.Kind == opEndPanic {
+		ev := op{Kind: opEvent}
+		a := rec{Seq: seq.Add(1), Kind: 'C', T: panicBase + id, Op: ev}
+		b := rec{Seq: seq.Add(1), Kind: 'C', T: id, Op: o}
+		doOp(tr, sp, id, o)
+		c := rec{Seq: seq.Add(1), Kind: 'R', T: id, Op: o}
+		d := rec{Seq: seq.Add(1), Kind: 'R', T: panicBase + id, Op: ev}
+		return []rec{a, b, c, d}
+	}
+	c := rec{Seq: seq.Add(1), Kind: 'C', T: id, Op: o}
+	ret := doOp(tr, sp, id, o)
+	return []rec{c, {Seq: seq.Add(1), Kind: 'R', T: id, Op: o, Ret: ret}}
 }
 
 func (t *snapTable) coq() string { return "[" + strings.Join(t.terms, "; ") + "]" }
@@ -334,7 +417,7 @@ func evCoq(r rec, tbl *snapTable) string {
 
 // finish builds the case pieces for one span: history (sorted by sequence number),
 // snapshot table and the re-reads (delivered snapshots read again, and the live span).
-func finish(st *spanTrack, calls []rec) (hist []string, tbl *snapTable, rereads []string, desc []string, bad string) {
+func finish(st *spanTrack, calls []rec, lims [3]int) (hist []string, tbl *snapTable, rereads []string, desc []string, bad string) {
 	st.mu.Lock()
 	all := append(append([]rec(nil), calls...), st.recs...)
 	delivered := append([]sdktrace.ReadOnlySpan(nil), st.delivered...)
@@ -349,7 +432,7 @@ func finish(st *spanTrack, calls []rec) (hist []string, tbl *snapTable, rereads 
 		case 'R':
 			desc = append(desc, fmt.Sprintf("%d ret#%d %s -> %v", r.Seq, r.T, r.Op, r.Ret))
 		default:
-			desc = append(desc, fmt.Sprintf("%d OnEnd proc%d parts=%v name=%d status=%d children=%d end=%s", r.Seq, r.T, r.Snap.Parts, r.Snap.Name, r.Snap.Status, r.Snap.Children, r.Snap.ET.Format("15:04:05.000000000")))
+			desc = append(desc, fmt.Sprintf("%d OnEnd proc%d parts=%v name=%d status=%d children=%d dropped=%v end=%s", r.Seq, r.T, r.Snap.Parts, r.Snap.Name, r.Snap.Status, r.Snap.Children, r.Snap.Drop, r.Snap.ET.Format("15:04:05.000000000")))
 			bad += r.Snap.Bad
 		}
 	}
@@ -361,6 +444,16 @@ func finish(st *spanTrack, calls []rec) (hist []string, tbl *snapTable, rereads 
 		}
 		if st.live != nil {
 			ob := observe(st.live)
+			// snapshot() copies the event / link drop count only when the queue is non-empty, so under a
+			// limit of 0 the delivered snapshot reports 0 where the live span reports the real count:
+			// not part of this property, compared on the delivered value
+			first := observe(delivered[0])
+			if lims[1] == 0 {
+				ob.Drop[1] = first.Drop[1]
+			}
+			if lims[2] == 0 {
+				ob.Drop[2] = first.Drop[2]
+			}
 			bad += ob.Bad
 			rereads = append(rereads, strconv.Itoa(tbl.add(ob)))
 		}
@@ -442,7 +535,7 @@ func seqCase(w *vgen.Writer, r *vgen.Rand, tracing bool, P int, ops []op, kind s
 			ret := doOp(e.tr, sp, i, o)
 			calls = append(calls, rec{Seq: seq.Add(1), Kind: 'R', T: i, Op: o, Ret: ret})
 		}
-		hist, tbl, rereads, hdesc, bad := finish(st, calls)
+		hist, tbl, rereads, hdesc, bad := finish(st, calls, unlimited)
 		desc["history"] = hdesc
 		if bad != "" {
 			w.Violation("snapshot content that no call produced: "+bad, desc)
@@ -494,9 +587,17 @@ func raceCase(w *vgen.Writer, r *vgen.Rand, tracing bool, kind string, storm boo
 	for g := range yields {
 		yields[g] = r.Intn(4)
 	}
-	desc := map[string]any{"fragment": "racing", "processors": P, "spans": K, "goroutines": G, "runtime_trace": tracing, "storm": storm}
-	ok := watchdog(w, "racing goroutines", desc, 30*time.Second, func() {
-		e := newEnv(P)
+	lims := genLimits(r)
+	for g := range progs { // some End calls come from a deferred call in a panicking goroutine
+		for j := range progs[g] {
+			if progs[g][j].o.Kind == opEnd && r.Chance(1, 4) {
+				progs[g][j].o = op{Kind: opEndPanic}
+			}
+		}
+	}
+	desc := map[string]any{"fragment": "racing", "processors": P, "spans": K, "goroutines": G, "runtime_trace": tracing, "storm": storm, "limits": lims}
+	ok := watchdog(w, "racing goroutines", desc, 60*time.Second, func() {
+		e := newEnvLim(P, lims)
 		spans := make([]trace.Span, K)
 		tracks := make([]*spanTrack, K)
 		for i := range spans {
@@ -516,10 +617,7 @@ func raceCase(w *vgen.Writer, r *vgen.Rand, tracing bool, kind string, storm boo
 					runtime.Gosched()
 				}
 				for _, p := range progs[g] {
-					c := rec{Seq: seq.Add(1), Kind: 'C', T: p.id, Op: p.o}
-					ret := doOp(e.tr, spans[p.span], p.id, p.o)
-					rr := rec{Seq: seq.Add(1), Kind: 'R', T: p.id, Op: p.o, Ret: ret}
-					calls[g][p.span] = append(calls[g][p.span], c, rr)
+					calls[g][p.span] = append(calls[g][p.span], issue(e.tr, spans[p.span], p.id, p.o)...)
 				}
 			}(g)
 		}
@@ -532,15 +630,17 @@ func raceCase(w *vgen.Writer, r *vgen.Rand, tracing bool, kind string, storm boo
 				cs = append(cs, calls[g][k]...)
 			}
 			for _, c := range cs {
-				if c.Kind == 'C' && c.Op.Kind == opEnd {
+				if c.Kind == 'C' && (c.Op.Kind == opEnd || c.Op.Kind == opEndPanic) {
 					ends++
 				}
 			}
-			hist, tbl, rereads, hdesc, bad := finish(tracks[k], cs)
+			hist, tbl, rereads, hdesc, bad := finish(tracks[k], cs, lims)
 			tracks[k].mu.Lock()
 			nd := len(tracks[k].recs)
 			tracks[k].mu.Unlock()
-			d := map[string]any{"fragment": "racing", "processors": P, "goroutines": G, "runtime_trace": tracing, "end_calls": ends, "onend_deliveries": nd, "history": hdesc}
+			d := map[string]any{"fragment": "racing", "processors": P, "goroutines": G, "runtime_trace": tracing, "limits": lims, "end_calls": ends, "onend_deliveries": nd, "history": hdesc}
+			term, bad2 := histTerm(P, tracing, lims, tbl, hist, rereads)
+			bad += bad2
 			if bad != "" {
 				w.Violation("snapshot content that no call produced: "+bad, d)
 			}
@@ -555,8 +655,7 @@ func raceCase(w *vgen.Writer, r *vgen.Rand, tracing bool, kind string, storm boo
 			if storm && !odd && !r.Chance(1, stormSample) {
 				continue // unremarkable storm trial: only a sample goes to Coq
 			}
-			term := fmt.Sprintf("CHist %d %v %s [%s] [%s]", P, tracing, tbl.coq(), strings.Join(hist, "; "), strings.Join(rereads, "; "))
-			w.Tally(fmt.Sprintf("race:trace=%v:ends=%d", tracing, min(ends, 3)))
+			w.Tally(fmt.Sprintf("race:trace=%v:ends=%d:limits=%v", tracing, min(ends, 3), lims != unlimited))
 			w.Add(term, d, kind, ends > 0)
 		}
 	})
@@ -576,9 +675,17 @@ func stormLoop(w *vgen.Writer, r *vgen.Rand, tracing bool, trials int, kind stri
 		P := 1 + (done/batch)&1
 		G := r.Range(3, 8)
 		mixed := r.Chance(1, 3)
-		desc := map[string]any{"fragment": "end-storm", "runtime_trace": tracing, "spans": n, "goroutines": G, "processors": P}
+		lims := unlimited
+		if mixed {
+			lims = genLimits(r)
+		}
+		panicking := r.Chance(1, 4) // a batch where worker 0 ends every span from a panicking goroutine
+		if panicking {
+			n = min(n, 400) // formatting the panic value sleeps: keep the batch short
+		}
+		desc := map[string]any{"fragment": "end-storm", "runtime_trace": tracing, "spans": n, "goroutines": G, "processors": P, "limits": lims, "end_while_panicking": panicking}
 		watchdog(w, "End storm", desc, 120*time.Second, func() {
-			e := newEnv(P)
+			e := newEnvLim(P, lims)
 			spans := make([]trace.Span, n)
 			tracks := make([]*spanTrack, n)
 			for i := range spans {
@@ -592,25 +699,25 @@ func stormLoop(w *vgen.Writer, r *vgen.Rand, tracing bool, trials int, kind stri
 					if mixed && g >= 2 && r.Bool() {
 						o = genOp(r, 0)
 					}
+					if panicking && g == 0 {
+						o = op{Kind: opEndPanic}
+					}
 					ops[g][i] = o
 				}
 			}
-			recs := make([][]rec, G)
+			recs := make([][][]rec, G)
 			var wg sync.WaitGroup
 			var start sync.WaitGroup
 			start.Add(1)
 			for g := 0; g < G; g++ {
-				recs[g] = make([]rec, 2*n)
+				recs[g] = make([][]rec, n)
 				wg.Add(1)
 				go func(g int) {
 					defer wg.Done()
 					start.Wait()
 					my, mo := recs[g], ops[g]
 					for i := 0; i < n; i++ {
-						o := mo[i]
-						my[2*i] = rec{Seq: seq.Add(1), Kind: 'C', T: g, Op: o}
-						ret := doOp(e.tr, spans[i], g, o)
-						my[2*i+1] = rec{Seq: seq.Add(1), Kind: 'R', T: g, Op: o, Ret: ret}
+						my[i] = issue(e.tr, spans[i], g, mo[i])
 					}
 				}(g)
 			}
@@ -624,7 +731,7 @@ func stormLoop(w *vgen.Writer, r *vgen.Rand, tracing bool, trials int, kind stri
 					same := false
 					for b := 0; b < a; b++ {
 						x, y := st.recs[a].Snap, st.recs[b].Snap
-						if x.ET.Equal(y.ET) && fmt.Sprint(x.Parts) == fmt.Sprint(y.Parts) && x.Children == y.Children && x.Name == y.Name && x.Status == y.Status {
+						if x.ET.Equal(y.ET) && fmt.Sprint(x.Parts) == fmt.Sprint(y.Parts) && x.Children == y.Children && x.Name == y.Name && x.Status == y.Status && x.Drop == y.Drop {
 							same = true
 						}
 					}
@@ -637,7 +744,7 @@ func stormLoop(w *vgen.Writer, r *vgen.Rand, tracing bool, trials int, kind stri
 					anomalous++
 				}
 				rate := stormSample
-				if mixed {
+				if mixed || panicking {
 					rate = stormSample / 4
 				}
 				if !odd && !r.Chance(1, rate) {
@@ -646,18 +753,19 @@ func stormLoop(w *vgen.Writer, r *vgen.Rand, tracing bool, trials int, kind stri
 				var cs []rec
 				ends := 0
 				for g := 0; g < G; g++ {
-					cs = append(cs, recs[g][2*i], recs[g][2*i+1])
-					if ops[g][i].Kind == opEnd {
+					cs = append(cs, recs[g][i]...)
+					if ops[g][i].Kind == opEnd || ops[g][i].Kind == opEndPanic {
 						ends++
 					}
 				}
-				hist, tbl, rereads, hdesc, bad := finish(st, cs)
-				d := map[string]any{"fragment": "end-storm", "processors": P, "goroutines": G, "runtime_trace": tracing, "end_calls": ends, "onend_deliveries": nd, "history": hdesc}
+				hist, tbl, rereads, hdesc, bad := finish(st, cs, lims)
+				d := map[string]any{"fragment": "end-storm", "processors": P, "goroutines": G, "runtime_trace": tracing, "limits": lims, "end_calls": ends, "onend_deliveries": nd, "history": hdesc}
+				term, bad2 := histTerm(P, tracing, lims, tbl, hist, rereads)
+				bad += bad2
 				if bad != "" {
 					w.Violation("snapshot content that no call produced: "+bad, d)
 				}
-				term := fmt.Sprintf("CHist %d %v %s [%s] [%s]", P, tracing, tbl.coq(), strings.Join(hist, "; "), strings.Join(rereads, "; "))
-				w.Tally(fmt.Sprintf("storm:trace=%v:mixed=%v", tracing, mixed))
+				w.Tally(fmt.Sprintf("storm:trace=%v:mixed=%v:panicking=%v", tracing, mixed, panicking))
 				w.Add(term, d, kind, true)
 			}
 		})
